@@ -83,6 +83,7 @@ def _c10():
         ("R-SAVE-EXCL", "write_snapshot runs under one single-writer guard", rules_rdb.rule_save_excl),
         ("R-BGSAVE-FLAG", "every exit of the BGSAVE thread (return and unwind) clears bgsave_in_progress", rules_rdb.rule_bgsave_flag),
         ("R-SNAP-ONE", "per key, value and TTL come from one engine call", rules_rdb.rule_snap_one),
+        ("R-RDB-CLOCK", "the remaining TTL a key had when it was read is converted to the absolute deadline with a clock value read in the same function invocation, not one cached when the save started (each key's TTL belongs to the instant it was read)", rules_rdb.rule_deadline_clock),
         ("R-RDB-COUNT", "count and elements of a shared collection come from one materialisation", rules_rdb.rule_count),
         ("R-PANIC-FILE", "lengths and counts read from the file reach arithmetic/indexing only when bounded", rules_panic.make_taint_rule({"file"}, rules_panic.PANIC_KINDS, "file panic sinks")),
         ("R-ALLOC-FILE", "the loader never allocates according to a length field of the file without a bound", rules_panic.make_taint_rule({"file"}, ("alloc",), "file allocation sinks")),
